@@ -166,6 +166,7 @@ package hsrv
 //@   on call Server.c2URL(ss, rr) (u, e): assert(rr == r && !tmplErr, "c2_from_this_request"); c2 = u; c2Err = e != nil
 //@   on call rand.Uint64() (n): rnd = n; nRnd++
 //@   on assign params(v): pOK = v.PubkeyFP == s.l.Fingerprint && v.URL == c2 && v.ID == strconv.FormatUint(rnd, 36) && nRnd == 1
+//@   on enter template.Template.Execute(t, wr, data): assert(fresh(b), "script_is_built_in_a_buffer_of_its_own_request")
 //@   on call template.Template.Execute(t, wr, data) (e): assert(t == tmplv && !tmplErr && !c2Err && pOK && boxes(data, params) && boxes(wr, b), "template_executed_with_fingerprint_callback_and_fresh_id_into_a_buffer"); execErr = e != nil; nExec++
 //@   on enter http.ResponseWriter.WriteHeader(w0, c): assert(w0 == w && nBody == 0, "status_before_body"); nHeader++; code = c
 //@   on enter bytes.Buffer.WriteTo(bb, w0): assert(bb == b && boxes(w0, w) && nExec == 1 && !execErr && nHeader == 0, "body_only_from_the_successfully_executed_buffer"); nBody++
